@@ -1,4 +1,5 @@
 import RscelModel.Model.Builtins
+import RscelModel.Model.Lex
 /-
 Line protocol: textual encoding of values / instructions shared with the Rust harness.
 Tokens are space separated.
@@ -293,5 +294,35 @@ def showOut (o : Out) : String :=
     | .ok v => showVal v
     | .error a => s!"e:{a.kind.name}"
   s!"{r} {showLog o.log}"
+
+end Rscel.Wire
+
+namespace Rscel.Wire
+open Rscel
+
+def showLoc (l : Loc) : String := s!"{l.line}:{l.col}"
+def showSpan (s : Span) : String := s!"{showLoc s.s}-{showLoc s.e}"
+
+def showTok : Tok → String
+  | .question => "?" | .colon => ":" | .add => "+" | .minus => "-" | .mul => "*" | .div => "/"
+  | .mod => "%" | .not => "!" | .dot => "." | .comma => "," | .lbracket => "[" | .rbracket => "]"
+  | .lbrace => "{" | .rbrace => "}" | .lparen => "(" | .rparen => ")" | .lt => "<" | .gt => ">"
+  | .oror => "||" | .andand => "&&" | .le => "<=" | .ge => ">=" | .eqeq => "==" | .ne => "!="
+  | .in_ => "in" | .null => "null" | .match_ => "match" | .case_ => "case"
+  | .boolLit b => if b then "true" else "false"
+  | .intLit n => s!"int:{n}"
+  | .uintLit n => s!"uint:{n}"
+  | .floatLit b => if F.isNaN b then "float:nan" else s!"float:{hex16 b}"
+  | .strLit s => s!"str:{hexOfStr s}"
+  | .fstrLit segs => "fstr:" ++ String.intercalate "," (segs.map fun
+      | .lit s => s!"L{hexOfStr s}"
+      | .expr s => s!"E{hexOfStr s}")
+  | .bytesLit b => s!"bytes:{hexOfBytes b}"
+  | .ident s => s!"id:{hexOfStr s}"
+
+def showLexed (r : Except LexErr Lexed) : String :=
+  match r with
+  | .error e => s!"E {showLoc e.loc}"
+  | .ok l => String.intercalate " " (s!"T:{l.toks.length}" :: l.toks.map fun (t, sp) => s!"{showTok t}@{showSpan sp}")
 
 end Rscel.Wire
